@@ -28,6 +28,16 @@ def _with_metaclass(meta, *bases):
         return type.__new__(metaclass, b'temporary_class', (), {})
 
 
+def _offset_as_text(offset):
+    ''' The offset in hexadecimal; an offset that is not an integer (the
+        caller gave None, a string...) is shown as it is: rendering an
+        error must never fail. '''
+    try:
+        return "%08x" % offset
+    except TypeError:
+        return "%8r" % (offset, )
+
+
 class PacketError(Exception):
     def __init__(
         self, was_error_found_in_unpacking_phase, field_name,
@@ -54,7 +64,9 @@ class PacketError(Exception):
         for offset, field_name, packet_class_name in reversed(
             self.fields_stack
         ):
-            offset_and_pkt_class = "    %08x %s" % (offset, packet_class_name)
+            offset_and_pkt_class = "    %s %s" % (
+                _offset_as_text(offset), packet_class_name
+            )
             first_part_len = len(offset_and_pkt_class)
 
             space = " " * max(44 - first_part_len, 1)
@@ -66,10 +78,10 @@ class PacketError(Exception):
 
         closer_field_offset, closer_field_name, closer_packet_class_name = self.fields_stack[
             0]
-        msg = "Error when %s the field '%s' of packet %s at %08x: %s\nPacket stack details: \n%s\nField's exception:\n%s" % (
+        msg = "Error when %s the field '%s' of packet %s at %s: %s\nPacket stack details: \n%s\nField's exception:\n%s" % (
             phase, closer_field_name, closer_packet_class_name,
-            closer_field_offset, self.original_error_message, stack_details,
-            self.original_traceback
+            _offset_as_text(closer_field_offset), self.original_error_message,
+            stack_details, self.original_traceback
         )
 
         return msg
